@@ -292,7 +292,7 @@ def uniform_refinement(image: darsia.Image, levels: int) -> darsia.Image:
                 # Weighted sum for coarsening
                 sub_array_0 = array[slice_0]
                 sub_array_1 = array[slice_1]
-                array = np.multiply(weight_1, sub_array_0)
+                array = np.multiply(weight_0, sub_array_0)
                 array[i_slice(slice(0, half_axis_length))] += np.multiply(
                     weight_1, sub_array_1
                 )
